@@ -145,13 +145,12 @@ def stepSome (s : State) (ws : List String) : Option State × String :=
     | some sd, some sz, some as => if sz > 40 then (some s, "bad-op") else txn s (contributeMpk s sd sz as)
     | _, _, _ => (some s, "bad-op")
   | "sos" :: sender :: count :: v :: rest =>
+    -- `valid|bad` says whether the entries verify against the DKG of `as` (default: the sender's own); the contract
+    -- validates against the sender's MPK, so entries of another miner's DKG do not verify
     match parseLabel sender, count.toNat?, asArg rest with
     | some sd, some c, some as =>
       if v ≠ "valid" ∧ v ≠ "bad" then (some s, "bad-op") else
-      match shareSignsOrShares s sd c (v = "valid") (as.getD sd) with
-      | .ok s' => (some s', "ok")
-      | .error e => (some s, showErr e)
-      | .crash => (some s, "crash")     -- the implementation side tries the call in a recoverable way first
+      txn s (shareSignsOrShares s sd c (decide (v = "valid") && (decide (c = 0) || decide (as.getD sd = sd))))
     | _, _, _ => (some s, "bad-op")
   | ["wait", sender] =>
     match parseLabel sender with
